@@ -201,13 +201,17 @@ class _Guard:
         self.obj(name + '.scattering_params', m.scattering_params, ('absorption_cross_section', 'total_scattering_cross_section'))
         return self.obj(name, m, ('effective_sample_number_density',))
 
-    def check(self, rec, site, op, **sub):
-        """True if nothing was modified by ``op``."""
+    def check(self, rec, site, op, seen=None, **sub):
+        """True if nothing was modified by ``op``.  ``seen``: report each modified item once."""
         ok = True
         for name, v, sig in self.vars:
             rec.validated += 1
             if _sig(v) != sig:
                 ok = False
+                if seen is not None:
+                    if (site, name) in seen:
+                        continue
+                    seen.add((site, name))
                 rec.viol(site, 'argument_modified', f'{op} modified {name}: now {np.asarray(v.values).tolist()!r:.200} [{v.unit}]', what=name, op=op, **sub)
         for name, o, held in self.objs:
             for f, v in held.items():
@@ -854,6 +858,7 @@ def _run_share(case, rec):
         want[op, who] = _share_do(op, who, cyls, args, kind)
         sub = {'history': [op + ':' + who], 'mode': case['mode'], 'axis': AXES[case['axis']]}
         _share_judge(rec, op, who, want[op, who], want[op, who], desc, args, sub)
+    seen = set()
     for depth in range(1, case['depth'] + 1):
         for hist in itertools.product(SHARE_OPS, repeat=depth):
             g, cyls, desc, args = _share_build(case)
@@ -864,7 +869,7 @@ def _run_share(case, rec):
             for i, (op, who) in enumerate(hist):
                 got = _share_do(op, who, cyls, args, kind)
                 rec.transitions += 1
-                clean &= g.check(rec, _SHARE_SITE[op], f'{names[i]} (step {i + 1} of {names})', **sub)
+                clean &= g.check(rec, _SHARE_SITE[op], f'{names[i]} (step {i + 1} of {names})', seen=seen, **sub)
             rec.evals += 1
             # prefixes are histories of their own: only the last result needs judging
             if _share_judge(rec, op, who, got, want[op, who], desc, args, sub) and clean:
